@@ -305,6 +305,19 @@ fn tinit(cx: &mut Ctx, st: &mut State, ti: usize, hi: usize, via: u8) {
             ),
         );
     }
+    // the position-array views of the target represent exactly h's block hashes
+    {
+        let (v1, v2) = (tg.block_hash_1(), tg.block_hash_2());
+        let ok1 = v1.len() as usize == m.norm.1.len() && v1.is_valid_and_normalized() && v1.is_equiv(&m.norm.1);
+        let ok2 = v2.len() as usize == m.norm.2.len() && v2.is_valid_and_normalized() && v2.is_equiv(&m.norm.2);
+        if !(ok1 && ok2) {
+            cx.fail(
+                "C17.reinit_eq_fresh",
+                format!("views:{}", sig),
+                format!("block_hash_1()/block_hash_2() views of the target do not represent {} (bh1 ok: {}, bh2 ok: {})", show(&m.norm), ok1, ok2),
+            );
+        }
+    }
     if tg.log_block_size() != m.norm.0 {
         cx.fail("C17.reinit_eq_fresh", format!("block_size:{}", sig), "target reports a different block size than the hash it was built from".to_string());
     }
